@@ -324,7 +324,16 @@ impl Tzif {
         let current_transition = db.transition_times[new_idx];
         let current_diff = *seconds - current_transition;
 
-        let initial_record = get_local_record(db, new_idx - 1);
+        // Before the first transition local time is specified by time type 0 (RFC 8536, 3.2).
+        let initial_record = match new_idx.checked_sub(1) {
+            Some(idx) => get_local_record(db, idx),
+            None => *db
+                .local_time_type_records
+                .first()
+                .ok_or(TemporalError::general(
+                    "Tzif data has no local time type record.",
+                ))?,
+        };
         let next_record = get_local_record(db, new_idx);
 
         // Adjust for offset inversion from northern/southern hemisphere.
